@@ -543,6 +543,21 @@ func directedKeySets() []KeySet {
 	add("f3-within-limit", "a"+rep("x", 16000)+"1", "a"+rep("x", 16000)+"2", "b")
 	add("ff-prefix-half", "\xff\xff\xf0", "\xff\xff\xf1", "\xff\xff\xff")
 	add("prefix-chain", "", "a", "aa", "aaa", "aaaa", "aaaaa")
+	// a 17-bit node with all 17 labels: a key ends at it and all 16 nibbles branch
+	full := []string{"a", "k"}
+	// ... and the same below a byte-wide root (a key can only end on a byte
+	// boundary, so the 17 labels are the end label and the 16 high nibbles)
+	full2 := []string{}
+	for i := 0; i < 16; i++ {
+		full = append(full, "k"+string([]byte{byte(i << 4)}))
+		full2 = append(full2, "\x50"+string([]byte{byte(i<<4) | byte(i)}))
+		if i < 12 {
+			full2 = append(full2, string([]byte{byte(0x60 + i)}))
+		}
+	}
+	full2 = append(full2, "\x50")
+	add("full-17-label-node", full...)
+	add("full-17-label-node-below-byte-node", full2...)
 	// more than 1024 levels
 	chain := make([]string, 0, 1500)
 	for i := 1; i <= 1500; i++ {
